@@ -229,6 +229,7 @@ type Instance struct {
 	height  int64
 	iavl    bool
 	qn      uint64
+	notes   []string
 }
 
 var sharedReg codectypes.InterfaceRegistry
